@@ -460,7 +460,10 @@ func c19Reconnect(seed uint64, tape *simkit.Tape, plan *C19Plan, res *Result) {
 		}
 		// wait for the new session and give the client time to announce itself
 		t3 := sim.Now()
-		sim.Run(func() bool { s := liveSession(); return s != nil && sim.Now()-t3 > 30*time.Second && sim.Enabled() == 0 })
+		sim.Run(func() bool {
+			s := liveSession()
+			return s != nil && sim.Now()-t3 > 30*time.Second && sim.Enabled() == 0
+		})
 		s := liveSession()
 		res.Episodes++
 		sim.State(fmt.Sprintf("!loss=%s policy=%s res=%d", loss, plan.Policy, nres))
